@@ -80,11 +80,12 @@ def run_batches(pts, mode, nproc=16):
         return got, err, timed_out, p.returncode
 
     def point_budget(pt):
-        return 150 if pt[1] > 100 else 20
+        # generous: a loaded machine must not turn a slow point into a "hang" (normal run: < 1 s light, < 20 s heavy)
+        return 400 if pt[1] > 100 else 90
 
     def task(batch):
         res = {}
-        got, err, timed_out, rc = launch(batch, 25 + sum(point_budget(pt) // 5 for pt in batch))
+        got, err, timed_out, rc = launch(batch, 60 + sum(point_budget(pt) // 3 for pt in batch))
         clean = not timed_out and rc == 0 and len(got) == len(batch) and "Exception ignored" not in err and "IndexError" not in err
         if clean:
             return got
